@@ -114,6 +114,7 @@ impl Condvar {
         // phase 1: atomically release the mutex and join the waiters
         let deadline = sched(Op::CvEnter(cv, mid), |st, me| {
             st.mutexes[mid] = None;
+            st.threads[me].blocking_ops += 1;
             st.condvars[cv].push_back(me);
             st.threads[me].notified = false;
             st.threads[me].timed_out = false;
